@@ -279,7 +279,7 @@ func checkLazyUnmarshal() {
 	f := parse("internal/impl/lazy.go")
 	fd := findFunc(f, "MessageInfo", "lazyUnmarshal")
 	var probs []string
-	fresh, publishes := false, false
+	fresh, publishes, afterAll := false, false, false
 	if fd == nil {
 		probs = append(probs, "MessageInfo.lazyUnmarshal not found")
 	} else {
@@ -308,33 +308,60 @@ func checkLazyUnmarshal() {
 				probs = append(probs, "no unmarshalField call")
 			}
 		}
-		// last statement: p.Apply(f.offset).AtomicSetPointerIfNil(fp.Elem())  (possibly `x := …` / `_ = …` or followed only by hook calls)
-		last := -1
-		for i, s := range b {
-			if len(calls(s, "AtomicSetPointerIfNil")) > 0 {
-				last = i
-			}
-		}
-		if last < 0 {
+		// publication: only through AtomicSetPointerIfNil(fp.Elem()) …
+		cas := calls(fd, "AtomicSetPointerIfNil")
+		if len(cas) == 0 {
 			probs = append(probs, "does not publish through AtomicSetPointerIfNil")
 		} else {
-			c := calls(b[last], "AtomicSetPointerIfNil")[0]
-			publishes = len(c.Args) == 1 && fpName != "" && str(c.Args[0]) == fpName+".Elem()"
-			if !publishes {
-				probs = append(probs, "AtomicSetPointerIfNil does not publish the fresh object")
-			}
-			for _, s := range b[last+1:] {
-				// only verif hook calls may follow
-				if c := stmtCall(s); c == nil || !strings.HasPrefix(str(c.Fun), "verifhook.") {
+			publishes = fpName != ""
+			for _, c := range cas {
+				if len(c.Args) != 1 || str(c.Args[0]) != fpName+".Elem()" {
 					publishes = false
-					probs = append(probs, "statements after the publishing CAS: "+firstLine(str(s)))
+					probs = append(probs, "AtomicSetPointerIfNil does not publish the fresh object")
 				}
 			}
-			for i, s := range b[:last] {
-				if len(calls(s, "unmarshalField")) > 0 && i > last {
-					publishes = false
+		}
+		// … exactly once, as the LAST action: a top-level expression statement of the function body (not inside
+		// a loop, branch or closure), with every unmarshalField call (all index entries) in the statements before it
+		// (only verification hook calls may follow; they are stripped before matching).
+		if len(cas) == 1 && len(b) > 0 {
+			lastStmt := b[len(b)-1]
+			if c := stmtCall(lastStmt); c != nil && c == cas[0] && strings.ReplaceAll(str(c.Fun), " ", "") == "p.Apply(f.offset).AtomicSetPointerIfNil" {
+				afterAll = true
+				for _, uc := range calls(fd, "unmarshalField") {
+					if uc.Pos() >= lastStmt.Pos() {
+						afterAll = false
+					}
+				}
+				nUnm := 0
+				for _, st := range b[:len(b)-1] {
+					nUnm += len(calls(st, "unmarshalField"))
+				}
+				if nUnm != len(calls(fd, "unmarshalField")) || nUnm == 0 {
+					afterAll = false
+				}
+				// the multi-entry loop merges every entry before the publication
+				loopOK := false
+				ast.Inspect(&ast.BlockStmt{List: b[:len(b)-1]}, func(x ast.Node) bool {
+					if rs, ok := x.(*ast.RangeStmt); ok && str(rs.X) == "multipleEntries" && len(calls(rs.Body, "unmarshalField")) == 1 {
+						loopOK = true
+					}
+					return true
+				})
+				if !loopOK {
+					afterAll = false
+					probs = append(probs, "no `for _, entry := range multipleEntries { mi.unmarshalField(…) }` before the publishing CAS")
 				}
 			}
+		}
+		if !afterAll {
+			where := "missing"
+			if len(cas) > 1 {
+				where = fmt.Sprintf("%d publishing CAS calls", len(cas))
+			} else if len(cas) == 1 {
+				where = "the publishing CAS is not the last top-level statement (it is inside a loop/branch, or statements follow it): line " + fmt.Sprint(fset.Position(cas[0].Pos()).Line)
+			}
+			probs = append(probs, "the object is not published as the last action, after all index entries are merged: "+where)
 		}
 		for _, bad := range []string{".AtomicSetPointer", ".atomicSetPointer", "StorePointer", ".AtomicSetNilPointer"} {
 			if len(calls(fd, bad)) > 0 {
@@ -356,7 +383,8 @@ func checkLazyUnmarshal() {
 	}
 	report("lazyUnmarshal", probs, fd)
 	addBool("lazyUnmarshalDecodesIntoFresh", fresh, "lazy.go: lazyUnmarshal decodes into a freshly allocated object (reflect.New), never into the message")
-	addBool("lazyUnmarshalPublishesViaSetIfNil", publishes, "lazy.go: the last action of lazyUnmarshal is p.Apply(f.offset).AtomicSetPointerIfNil(fp.Elem()); no other store")
+	addBool("lazyUnmarshalPublishesViaSetIfNil", publishes, "lazy.go: lazyUnmarshal publishes only through AtomicSetPointerIfNil(fp.Elem()); no other store")
+	addBool("lazyUnmarshalPublishesAfterAllEntries", publishes && afterAll, "lazy.go: the one publishing CAS is the last top-level statement of lazyUnmarshal, after the loop that merges every index entry (multipleEntries) into the fresh object — never inside a loop or branch")
 }
 
 func firstLine(s string) string {
